@@ -285,9 +285,9 @@ CLAIMED = {
         "multi-connection sessions through the real start_client on SQLite and LMDB, the same history run through the "
         "machine with its settled schedule; frames per connection per message and the registry must agree; the machine's "
         "abstract inputs (usable, answer, match, accepted) come from an independent reference, not from the implementation.",
-        "Partial: 'is eventually sent' is stated as enabledness + the settled schedule (no fairness in the model); the "
-        "real event loop's interleavings inside one settled step are not enumerated by the check (the theorems quantify "
-        "over them). Trusted: asyncio task/cancel semantics as encoded in the labels; asyncio.Queue FIFO.",
+        "Partial: 'is eventually sent' is stated as enabledness + the settled schedule (no fairness in the model); beyond "
+        "the settled sessions the check records unsettled bursts as label sequences that must be runs of the machine "
+        "(proto.trace); interleavings the event loop never produces are covered by the theorems only. Trusted: asyncio task/cancel semantics as encoded in the labels; asyncio.Queue FIFO.",
         "DESIGN.md §6 C13",
     ),
     "C05": (
@@ -304,8 +304,10 @@ CLAIMED = {
         "subscription' from a reference registry and matcher, and with the machine; live-vs-stored agreement per filter "
         "on both backends incl. a validly NIP-26-delegated event and empty tag values. Two defects of check_event were "
         "repaired (until/since 0, empty tag value); two SQL stored-side disagreements are known findings.",
-        "Partial: the check settles the loop after every message; interleavings are covered by the theorems, not "
-        "enumerated against the implementation. Trusted: asyncio semantics as encoded in the labels.",
+        "Partial: the checks observe the interleavings the event loop produces (settled sessions, query tasks held at "
+        "their start, and recorded bursts whose label sequence must be a run of the machine with equal transcripts — "
+        "harness/lib/ptrace.py, driver op proto.trace); the others are covered by the theorems, not enumerated against the "
+        "implementation. Trusted: asyncio semantics as encoded in the labels.",
         "DESIGN.md §6 C05",
     ),
     "C19": (
